@@ -35,8 +35,7 @@ def cases(tier, seed):
     for name, spec in zoo.SPECS.items():
         for D in spec["dims"]:
             Ns = {1: [7, 8], 2: [5, 6], 3: [5, 4]}[D] if tier == "quick" else {1: [5, 8, 11, 12], 2: [4, 5, 6, 9], 3: [4, 5, 6]}[D]
-            if name.endswith("Velocity"):
-                Ns = [max(n, 5) for n in Ns]
+            Ns = sorted({zoo.nontrivial_N(name, n) for n in Ns})
             orders = [None] if spec["linear"] else ([int(1 + (env.crc(name) + D) % 4)] if tier == "quick" else [0, 1, 2, 3, 4])
             for N in Ns:
                 for o in orders:
